@@ -3,6 +3,7 @@ namespace tree."""
 import contextlib
 import io
 import itertools
+import time
 import json
 import re
 
@@ -334,7 +335,13 @@ class C10(Prop):
             return "F-C10c"
         return None
 
+    _shrink_t0 = None
+
     def shrink_candidates(self, case):
+        if self._shrink_t0 is None:
+            self._shrink_t0 = time.time()
+        if time.time() - self._shrink_t0 > 75:     # bounded shrinking wall time
+            return
         names = case["names"]
         if len(names) > 1:
             for i in range(len(names)):
